@@ -278,6 +278,9 @@ STD_ENUMS = {
     'ControlFlow': {'Continue': 0, 'Break': 1},
     'Entry': {'Occupied': 0, 'Vacant': 1},
     'Bound': {'Included': 0, 'Excluded': 1, 'Unbounded': 2},
+    'ErrorKind': {'NotFound': 0, 'PermissionDenied': 1, 'ConnectionRefused': 2, 'AlreadyExists': 12, 'InvalidInput': 20,
+                  'InvalidData': 21, 'TimedOut': 22, 'WriteZero': 23, 'Interrupted': 35, 'Unsupported': 36,
+                  'UnexpectedEof': 37, 'OutOfMemory': 38, 'Other': 39},
 }
 
 
